@@ -5,7 +5,9 @@
 //! real objects under each strategy and compared step by step (identities and exact counts).
 
 use std::collections::{HashMap, VecDeque};
-use std::sync::{Arc, Mutex, RwLock};
+use std::sync::{Arc, Mutex};
+
+use arc_swap_verif_rt::sync::RwLock;
 
 use arc_swap::strategy::{CaS, Strategy};
 use arc_swap::{ArcSwapAny, DefaultStrategy, Guard};
